@@ -73,6 +73,9 @@ def disease_cfg(rng, d):
         c.update(beta=rng.choice([0.3, 0.6]), p_clear=rng.choice([0.2, 0.6, 0.9]))
     elif d == 'hiv':
         c.update(beta=rng.choice([0.1, 0.3]))
+        # non-default CD4 range (the default cd4_max equals the default CD4 count of an uninfected agent: a coincidence the
+        # model must not rely on), either side of the default
+        c.update(cd4_max=rng.choice([500, 800, 350]), cd4_min=rng.choice([100, 50]))
     elif d == 'syphilis':
         c.update(beta=rng.choice([0.3, 0.6]))
     return c
